@@ -49,6 +49,7 @@ from jax2onnx._compat.jax import (
     ensure_batching_not_mapped_attr,
 )
 from jax2onnx.converter.function_scope import FunctionScope, FunctionKey
+from jax2onnx.converter.ir_builder import _dtype_to_ir
 from jax2onnx.converter.lowering_dispatch import (
     lower_jaxpr_with_plugins,
     make_converter_facade,
@@ -1020,8 +1021,19 @@ class FunctionPlugin(PrimitivePlugin):
 
         for entry in dynamic_entries:
             if entry.get("force_external"):
+                # The graph input takes the call parameter's own type: only
+                # flags such as `deterministic` are BOOL.
+                entry_sds = entry["sds"]
                 entry["ir_value"] = ctx.ensure_external_flag(
-                    entry["name"], entry.get("var")
+                    entry["name"],
+                    entry.get("var"),
+                    dtype=_dtype_to_ir(
+                        # as the body trace sees it (float64 literal -> float32
+                        # unless the export runs in double precision)
+                        np.dtype(jax.dtypes.canonicalize_dtype(entry_sds.dtype)),
+                        bool(getattr(ctx.builder, "enable_double_precision", False)),
+                    ),
+                    shape=tuple(entry_sds.shape),
                 )
             else:
                 entry["ir_value"] = ctx.get_value_for_var(
